@@ -13,8 +13,11 @@ import json
 from . import core
 
 JUNK_POOL = [" ", "(", ")", "1", "2", "0", "_", ",", "\t", ".", "-", "+", "*", "/", "[", "]", ">", "'", '"', "#", "  ",
-             "\n", "\r", "\x0b", "\x0c", "\x00", "\x07", "\x1b", "\x1c", "\x1d", "\x1e", "\x1f", "\x7f", "@", "~", "\\"]
-MODEL_ALPHABET = [chr(c) for c in range(0, 128)] + ["≤", "…"]
+             "\n", "\r", "\x0b", "\x0c", "\x00", "\x07", "\x1b", "\x7f", "@", "~", "\\"]
+# 0x1c-0x1f are white space for str.strip() but not for the regex module's \s: the model has ONE notion of white space
+# (9-13, 32), so these four separators stay outside the alphabet of the arbitrary stream (they are exercised as junk, where
+# both readings agree, and in the implementation-only Unicode stream)
+MODEL_ALPHABET = [chr(c) for c in range(0, 128) if not 0x1C <= c <= 0x1F] + ["≤", "…"]
 
 
 def real_call(np_mod, cs, s):
@@ -78,6 +81,13 @@ def run(ctx):
         for s, k in abbreviations:
             for pre, post, neg in decorations:
                 cases.append(("abbreviations×decorations", pre + s + post, ("ok", k, neg), False))
+
+        # 1b. "adding the word not" (manual): the word may be separated by any ASCII white space, `!` may be surrounded by it
+        ws_markers = [("not\t", ""), ("not\n", ""), ("not  ", ""), ("not \t ", ""), ("NOT\t", ""), ("", "\tnot"), ("", "\nnot"),
+                      ("", "  not"), ("", " \t NOT"), ("is not\t", ""), ("\t!", ""), ("!\t", ""), ("  !", ""), (" ! ", ""), ("\n!\n", "")]
+        for k in keys:
+            for pre, post in rng.sample(ws_markers, 4):
+                cases.append(("keys×white-space variants of the negation markers", pre + k + post, ("ok", k, True), False))
 
         # 2. formula spellings with junk (the theorem C16_formula quantifies over all of them)
         n_styles = 3 if ctx.tier == "quick" else 200
